@@ -137,6 +137,16 @@ func main() {
 		runLeak(*work, *seed, *sel, *workers)
 	case "placements":
 		runPlacements(*tablesPath, *work, *seed, *sel, *workers)
+	case "lone":
+		n := 3
+		if *sel == "thorough" {
+			n = 4
+		}
+		only := ""
+		if strings.Contains(*sel, "/") {
+			only = *sel
+		}
+		runLone(n, only)
 	default:
 		emit(map[string]string{"fatal": "unknown mode " + *mode})
 		os.Exit(2)
